@@ -3,7 +3,8 @@ import XonshVerif.Model.Py
 C15 — alias expansion (`Aliases.eval_alias`, `Aliases.get` in xonsh/aliases.py and the spec-level
 `SubprocSpec.resolve_decorators` / `resolve_alias`).  Hand-written, executable, import-free.
 
-Tokens are abstract (`Nat`): `XSH.expand_path` is the identity on the tokens the tie uses.
+Tokens are abstract (`Nat`); `XSH.expand_path` is a PARAMETER `exp : Tok → Tok` (its own behaviour is
+C04's subject): it is applied to the alias's words — never to the user's arguments.
 A return-command alias is an ORACLE `args ↦ returned command` (theorems quantify over all oracles).
 TERMINATION IS PART OF THE RESULT: `evalAlias` is accepted by Lean by well-founded recursion on the
 number of table keys not yet seen — no fuel, for every table, cycles included.
@@ -73,46 +74,46 @@ inductive Prep where
 /-- steps 1 and 2 of `eval_alias`: strip leading decorator aliases of a multi-word value; call a
 return-command alias with the accumulated arguments (its result replaces the value, the arguments
 are consumed); a callable ends the expansion; a list is split into `token, *rest`. -/
-def prepare (tbl : Tbl) (orc : Oracle) (v : Val) (acc : List Tok) (decs : List Nat) : Prep :=
+def prepare (tbl : Tbl) (orc : Oracle) (exp : Tok → Tok) (v : Val) (acc : List Tok) (decs : List Nat) : Prep :=
   match v with
   | .words ws =>
     let (ws, decs) := if ws.length > 1 then stripDecs tbl ws decs else (ws, decs)
     match ws with
     | [] => .done .valueError decs               -- `token, *rest = …` cannot unpack
-    | token :: rest => .go token rest acc decs
+    | token :: rest => .go (exp token) (rest.map exp) acc decs    -- `token, *rest = map(expand_path, value)`
   | .retcmd id =>
     match orc id acc with
     | none => .done .raisedInAlias decs
     | some [] => .done .valueError decs          -- _normalize_return_command_result rejects it
-    | some (token :: rest) => .go token rest [] decs
+    | some (token :: rest) => .go (exp token) (rest.map exp) [] decs
   | .callable _ | .decorator _ => .done (.call v acc) decs
 
 /-- `Aliases.eval_alias(value, seen_tokens, acc_args, decorators)`; returns the result, the
 decorators collected so far, and the final `seen_tokens` (for the each-alias-once theorem). -/
-def evalAlias (tbl : Tbl) (orc : Oracle) (v : Val) (seen : List Tok) (acc : List Tok) (decs : List Nat) :
+def evalAlias (tbl : Tbl) (orc : Oracle) (exp : Tok → Tok) (v : Val) (seen : List Tok) (acc : List Tok) (decs : List Nat) :
     Res × List Nat × List Tok :=
-  match prepare tbl orc v acc decs with
+  match prepare tbl orc exp v acc decs with
   | .done r decs => (r, decs, seen)
   | .go token rest acc decs =>
     -- 3. the leftmost token is expanded again unless already seen or not an alias
     if hs : seen.contains token then (.cmd (token :: rest ++ acc), decs, seen)
     else match hl : tbl.lookup token with
       | none => (.cmd (token :: rest ++ acc), decs, seen)
-      | some v' => evalAlias tbl orc v' (token :: seen) (rest ++ acc) decs
+      | some v' => evalAlias tbl orc exp v' (token :: seen) (rest ++ acc) decs
 termination_by (unseen tbl seen).length
 decreasing_by
   exact unseen_lt tbl seen token (by simpa using hs) (lookup_isSome_mem tbl token v' hl)
 
 /-- `Aliases.get(key_or_cmd, decorators=…)` with `cmd = key :: args` -/
-def get (tbl : Tbl) (orc : Oracle) (key : Tok) (args : List Tok) : Res × List Nat × List Tok :=
+def get (tbl : Tbl) (orc : Oracle) (exp : Tok → Tok) (key : Tok) (args : List Tok) : Res × List Nat × List Tok :=
   match tbl.lookup key with
   | none => (.notAlias, [], [key])
   | some (.retcmd id) =>
     match orc id args with
     | none => (.raisedInAlias, [], [key])
     | some [] => (.valueError, [], [key])
-    | some ws => evalAlias tbl orc (.words ws) [key] [] []
-  | some v => evalAlias tbl orc v [key] args []
+    | some ws => evalAlias tbl orc exp (.words ws) [key] [] []
+  | some v => evalAlias tbl orc exp v [key] args []
 
 /-- what `SubprocSpec.resolve_decorators` + `resolve_alias` leave in the spec -/
 structure Spec where
@@ -130,13 +131,13 @@ def specStrip (tbl : Tbl) (cmd : List Tok) : List Tok × List Nat :=
   | [] => (cmd.drop (cmd.length - 1), decs)
   | _ => (rest, decs)
 
-def specResolve (tbl : Tbl) (orc : Oracle) (cmd : List Tok) : Spec :=
+def specResolve (tbl : Tbl) (orc : Oracle) (exp : Tok → Tok) (cmd : List Tok) : Spec :=
   -- resolve_decorators: only when the command has more than one word
   let (cmd, decs0) := if cmd.length > 1 then specStrip tbl cmd else (cmd, [])
   match cmd with
   | [] => ⟨[], .valueError, decs0⟩          -- `self.cmd[0]` raises IndexError
   | cmd0 :: args =>
-    let (r, decs, _) := get tbl orc cmd0 args
+    let (r, decs, _) := get tbl orc exp cmd0 args
     match r with
     | .call v a => ⟨cmd0 :: a, .call v a, decs0 ++ decs⟩
     | r => ⟨cmd0 :: args, r, decs0 ++ decs⟩
